@@ -132,7 +132,12 @@ func load(c *Case, env *Env) (m *gonnx.Model, o outcome) {
 		if c.Reader == "proto-empty" {
 			emptySlices(mp.GetGraph(), 0)
 		}
-		o = guard(func() (err error) { m, err = gonnx.NewModel(mp); return })
+		// ... and builds TWO Models from the one message (one per worker, say); the second is the one observed: building
+		// the first must not have changed what the message says
+		o = guard(func() (err error) { _, err = gonnx.NewModel(mp); return })
+		if o.kind == "ok" {
+			o = guard(func() (err error) { m, err = gonnx.NewModel(mp); return })
+		}
 	case "file":
 		p := filepath.Join(env.Scratch, fmt.Sprintf("m-%d.onnx", os.Getpid()))
 		if err := os.WriteFile(p, c.Data, 0o644); err != nil {
